@@ -271,7 +271,7 @@ def check_steps(ctx, paths, obs, what):
 
 # ---------------------------------------------------------------------------------------------- trace validation
 def trace_run(ctx, binary, tag, **kw):
-    inp = {"ntraces": 3, "nsteps": 40, "maxtx": 4, "mode": "mixed", "nkeepers": 4}
+    inp = {"ntraces": 2, "nsteps": 40, "maxtx": 4, "mode": "mixed", "nkeepers": 4}
     inp.update(kw)
     return run_harness(ctx, binary, "TestVerifLQTrace", inp, "trace-" + tag)
 
